@@ -19,15 +19,17 @@ Fixpoint struct_partitions (method : N) (lens : list (option nat)) : P (list par
 Definition struct_part_lens (block_size order po : N) : list (option nat) :=
   let count := 2 ^ po in
   let size := block_size / count in
+  (* repo fix 534629d: every partition length must be > 0 (first one: size - order) *)
   map (fun i => if (i =? 0)%nat
-                then (if order <=? size then Some (N.to_nat (size - order)) else None)
-                else Some (N.to_nat size))
+                then (if order <? size then Some (N.to_nat (size - order)) else None)
+                else (if 0 <? size then Some (N.to_nat size) else None))
       (seq 0 (N.to_nat count)).
-(* stream.rs:2796-2832 Residuals::from_reader *)
+(* stream.rs Residuals::from_reader *)
 Definition struct_residuals (block_size order : N) : P residual :=
   method <-- p_rd 2 ;;
   _ <-- p_guard (method <? 2) ECodingMethod ;;
   po <-- p_rd 4 ;;
+  _ <-- p_guard (block_size mod 2 ^ po =? 0) EPartitionOrder ;;   (* repo fix 534629d *)
   ps <-- struct_partitions method (struct_part_lens block_size order po) ;;
   pret {| r_method := method; r_parts := ps |}.
 
